@@ -47,7 +47,7 @@ def bounds(tier):
 
 
 def tasks(tier):
-    out = []
+    out = [dict(kind='interact', mode=m, tier=tier) for m in ('bytes', 'utf-8')]
     for tr in TR.NAMES:
         for mode in ('bytes', 'utf-8'):
             for sub in SUBSETS:
@@ -169,8 +169,81 @@ def run_seq(task, seq):
     return obs, viol
 
 
+def eval_interact(obs, viol, mode, pieces):
+    enc = None if mode == 'bytes' else mode
+    stype = bytes if enc is None else str
+    if viol and viol[0] in ('exception', 'hang'):
+        return ('interact-' + viol[0], viol[1])
+    if viol:
+        return None
+    empty = stype()
+    got = {'logfile': empty, 'logfile_read': empty, 'logfile_send': empty}
+    last = {}
+    v = None
+    for (name, kind, s_) in obs['events']:
+        if kind == 'w':
+            if last.get(name) == 'w':
+                v = v or ('interact-no-flush', '%s: two writes without flush' % name)
+            last[name] = 'w'
+            if type(s_) is not stype:
+                return ('interact-type', 'during interact() %s received %s %r in %s mode' % (name, type(s_).__name__, s_, mode))
+            got[name] += s_
+        else:
+            last[name] = 'f'
+    if v:
+        return v
+    if enc is None:
+        want_read, want_send = obs['consumed_out'], obs['to_child']
+        clean = True
+    else:
+        want_read = codecs.getincrementaldecoder(enc)().decode(obs['consumed_out'])
+        clean = True
+        for p_ in pieces:
+            try:
+                p_.decode(enc)
+            except UnicodeDecodeError:
+                clean = False
+        want_send = obs['to_child'].decode(enc, 'replace')
+    if got['logfile_read'] != want_read:
+        return ('interact-read-log', 'logfile_read has %r, the child output delivered was %r' % (got['logfile_read'], want_read))
+    if clean and got['logfile_send'] != want_send:
+        return ('interact-send-log', 'logfile_send has %r, the child received %r' % (got['logfile_send'], want_send))
+    if clean and len(got['logfile']) != len(got['logfile_read']) + len(got['logfile_send']):
+        return ('interact-logfile', 'logfile has %r' % (got['logfile'],))
+    return None
+
+
+def run_interact_logs(task, acc, only=None):
+    """interact() with all three logs attached (driver of C15)."""
+    from mc import c15_interact as c15
+    from mc.explore import dfs, Chooser
+    mode = task['mode']
+    cfg = dict(filt='none', mode=mode, esc='default', poll=False, pending=False)
+    if only is not None:
+        obs, viol = c15.run_interact(Chooser(only['choices']), cfg, only['pieces'], tuple(only['merge']), only['ending'], logs=True)
+        return eval_interact(obs, viol, mode, only['pieces'])
+    for t, pieces, mg in c15.scripts('quick', base=False):
+        for ending in ('escape', 'exit'):
+            def run(ch):
+                return c15.run_interact(ch, cfg, pieces, mg, ending, logs=True)
+            for ch, (obs, viol) in dfs(run, bound=0):
+                acc.execs += 1
+                acc.transitions += len(mg) + 1
+                acc.nontrivial += 1
+                acc.flags['mixed'] += 1
+                v = eval_interact(obs, viol, mode, pieces)
+                acc.outcomes['interact:%s' % ('viol' if v else 'ok')] += 1
+                if v:
+                    acc.violation('interact:%s:%s' % (mode, v[0]), 'keys %r merge %r ending %s: %s' % (b''.join(t), mg, ending, v[1]),
+                                  dict(task=task, pieces=pieces, merge=list(mg), ending=ending, choices=ch.choices()))
+    acc.states += 1
+
+
 def run_task(task):
     acc = Acc()
+    if task.get('kind') == 'interact':
+        run_interact_logs(task, acc)
+        return acc
     q = task['tier'] == 'quick'
     ops = menu(task['transport'])
     maxlen = 3 if q else 4
@@ -207,6 +280,12 @@ def replay(spec):
     from mc.explore import unjson
     spec = unjson(spec)
     task = spec['task']
+    if task.get('kind') == 'interact':
+        v = run_interact_logs(task, None, only=spec)
+        out = {'violation': None}
+        if v:
+            out['violation'] = {'key': 'interact:%s:%s' % (task['mode'], v[0]), 'msg': v[1]}
+        return out
     obs, viol = run_seq(task, tuple(spec['seq']))
     out = {'observation': {k: repr(v) for k, v in obs.items()}, 'violation': None}
     if viol:
